@@ -122,6 +122,22 @@ def replay_agent(doc):
     pool.load_robots_txt(ui, text3); first = pool.can_fetch(ui, 'Wpull/2'); pool.load_robots_txt(ui, text2); second = pool.can_fetch(ui, 'Wpull/2')
     if bool(first) != bool(ref3.is_allowed('Wpull/2', ui.url)) or bool(second) != bool(ref2.is_allowed('Wpull/2', ui.url)):
         bad.append('after the rules of the origin were replaced, %s is %s (before: %s)' % (urls[1], 'allowed' if second else 'disallowed', 'allowed' if first else 'disallowed'))
+    # robots.txt bodies as the checker receives them (bytes, through the real RobotsTxtChecker._read_content): a byte that is not UTF-8 somewhere in the file (a Latin-1
+    # comment, a cp1252 path in another group) does not make the ASCII rules of the file disappear
+    import io as _io
+    from wpull.protocol.http.robots import RobotsTxtChecker
+    for label, raw in [('latin-1 comment', b'# r\xe9serv\xe9 aux robots\nUser-agent: *\nDisallow: /private\n'), ('cp1252 path in another group', b'User-agent: other\nDisallow: /caf\xe9\n\nUser-agent: *\nDisallow: /private\n'),
+                       ('utf-8 with BOM', b'\xef\xbb\xbfUser-agent: *\nDisallow: /private\n'), ('plain', b'User-agent: *\nDisallow: /private\n'), ('NUL byte', b'User-agent: *\nDisallow: /private\n\x00\n'),
+                       ('utf-16 BOM junk first line', b'\xff\xfe\nUser-agent: *\nDisallow: /private\n')]:
+        pool = RobotsTxtPool(); chk = RobotsTxtChecker.__new__(RobotsTxtChecker); chk._robots_txt_pool = pool
+        ui = URLInfo.parse('http://h.example/private/x')
+        class _Resp: pass
+        r_ = _Resp(); r_.body = _io.BytesIO(raw)
+        try:
+            chk._read_content(r_, ui)
+            if pool.can_fetch(ui, 'Wpull/2'): bad.append('robots.txt (%s) says Disallow: /private for every agent, yet %s is allowed after the checker read it' % (label, ui.url))
+        except Exception as e:
+            bad.append('reading a robots.txt (%s) raised %s: %s' % (label, type(e).__name__, str(e)[:60]))
     if bad: return True, '; '.join(bad[:4])
     return False, 'pool verdicts equal the matcher verdicts for 8 agents x 4 paths and on 72 two-URL histories (asked twice, query-dependent rules, three origins, two agents, reload)'
 
